@@ -332,3 +332,251 @@ def instances(tier):       # noqa: F811
         for wca in ((-1,), (-3,), (-3, -1), (-3, -2, -1)):
             out.append(estep_instance(kind, wca=wca))
     return out
+
+
+# ============================================================================= P3: initializers
+def flag_instance(K, N, lead=()):
+    """flag initializer with a symbolic `minimum` in (0, 1/K): segment n*K//N owns observation n; every other class gets exactly
+    the minimum, the owner the remainder; columns sum to one."""
+    from pb_bss.initializer import deterministic as det
+    lead = tuple(lead)
+
+    def make(B):
+        return {'Y': B.given('Y', np.zeros(lead + (N, 2)), wrap=False), 'm': B.real('m', (), lo=0.0, hi=1.0 / K, lo_strict=True, hi_strict=True,
+                                                                                    dist=(0.01 / K, 0.99 / K))}
+
+    def call(inp):
+        return det.flag(inp['Y'], K, permutation_free=True, minimum=inp['m'])
+
+    def ensures(sp, inp, out):
+        yield 'shape', sp._f(shape_of(out) == lead + (K, N))
+        if shape_of(out) != lead + (K, N):
+            return
+        g, m = cells(out), inp['m']
+        for li in np.ndindex(*lead):
+            for n in range(N):
+                owner = (n * K) // N
+                for k in range(K):
+                    want = (1.0 - (K - 1) * m) if k == owner else m
+                    yield 'value[%s,%d,%d]' % (li, k, n), sp.eq(g[li + (k, n)], want)
+                yield 'column-sums-to-one[%s,%d]' % (li, n), sp.eq(sp.sum(g[li + (k, n)] for k in range(K)), 1.0)
+
+    return Instance('C01', 'pb_bss.initializer.deterministic:flag', 'K%dN%d-lead%s' % (K, N, 'x'.join(map(str, lead)) or '0'), make, call, ensures,
+                    crosscheck=False, frame=False)
+
+
+def initializer_bounded_instance():
+    from pb_bss.initializer import iid, deterministic as det, deflation
+
+    def make(B):
+        return {'fn': B.choose('fn', ['uniform_normalized', 'dirichlet_uniform', 'dirichlet', 'one_hot', 'flag', 'flag0', 'deflation', 'deflation']),
+                'K': B.choose('K', [1, 2, 3, 4, 6]), 'N': B.choose('N', [1, 2, 5, 12]), 'lead': B.choose('lead', [(), (3,), (2, 2)]),
+                'pf': B.choose('pf', [False, True]), 'seed': B.choose('seed', list(range(5000))), 'd': B.given('d', np.zeros(1))}
+
+    def call(inp):
+        fn, K, N, lead, pf = inp['fn'], inp['K'], inp['N'], tuple(inp['lead']), inp['pf']
+        rng = np.random.RandomState(inp['seed'])
+        res = {'fn': fn, 'K': K, 'pf': pf}
+        if fn == 'deflation':
+            K = max(K, 2)
+            F, T, D = int(rng.choice([257, 513])), int(rng.choice([11, 16, 30])), int(rng.choice([2, 3, 5]))
+            # K sources active in disjoint time segments plus weak noise (a scene the initializer is made for), random gains
+            Y = 0.05 * (rng.normal(size=(F, T, D)) + 1j * rng.normal(size=(F, T, D)))
+            steer = rng.normal(size=(K, F, 1, D)) + 1j * rng.normal(size=(K, F, 1, D))
+            owner = rng.randint(0, K, size=T)
+            for k in range(K):
+                Y[:, owner == k, :] += steer[k] * rng.uniform(0.5, 2.0, size=(1, int(np.sum(owner == k)), 1))
+            Y = Y * 10.0 ** rng.uniform(-6, 6)
+            out = deflation.deflationSeed(Y, K, permutation_free=pf)
+            res.update(out=np.moveaxis(np.asarray(out), 0, -2), shape=(F, K, T), K=K)      # (K, F, T) -> (F, K, T) for the common checks
+            res['raw_shape_ok'] = np.shape(out) == (K, F, T)
+            return res
+        Y = rng.normal(size=lead + (N, 3)) + 1j * rng.normal(size=lead + (N, 3))
+        np.random.seed(inp['seed'])
+        if fn == 'flag':
+            m = float(rng.uniform(0.02, 0.98)) / K
+            out = det.flag(Y, K, permutation_free=True, minimum=m) if K > 1 else det.flag(Y, K, permutation_free=True)
+            res['minimum'] = m if K > 1 else 0.0
+        elif fn == 'flag0':
+            out = det.flag(Y, K, permutation_free=True)
+            res['minimum'] = 0.0
+        elif fn == 'dirichlet':
+            out = iid.dirichlet(Y, K, permutation_free=pf, alpha=float(rng.choice([0.3, 1.0, 5.0])))
+        else:
+            out = getattr(iid, fn)(Y, K, permutation_free=pf)
+        res.update(out=np.asarray(out), shape=lead + (K, N))
+        return res
+
+    def ensures(sp, inp, out):
+        o, K = out['out'], out['K']
+        yield 'documented-shape[%s]' % out['fn'], bool(o.shape == out['shape'] and out.get('raw_shape_ok', True))
+        if o.shape != out['shape']:
+            return
+        yield 'finite-in-[0,1][%s]' % out['fn'], bool(np.all(np.isfinite(o)) and np.all(o >= 0.0) and np.all(o <= 1.0 + 1e-12))
+        yield 'sums-to-one-over-classes[%s]' % out['fn'], bool(np.allclose(o.sum(-2), 1.0, rtol=0, atol=1e-9))
+        if out['fn'] in ('flag', 'flag0'):
+            N = o.shape[-1]
+            owner = (np.arange(N) * K) // N
+            m = out['minimum']
+            exp = np.where(np.arange(K)[:, None] == owner[None, :], 1.0 - (K - 1) * m, m)
+            yield 'flag-values', bool(np.allclose(o, np.broadcast_to(exp, o.shape), rtol=0, atol=1e-12))
+        if out['fn'] == 'one_hot':
+            yield 'one-hot', bool(np.all((o == 0) | (o == 1)))
+        if out['pf'] and out['fn'] in ('uniform_normalized', 'dirichlet_uniform', 'dirichlet', 'one_hot') and o.ndim > 2:
+            flat = o.reshape((-1,) + o.shape[-2:])
+            yield 'permutation-free-initialisation-is-shared-by-all-leading-indices', bool(np.all(flat == flat[:1]))
+
+    return Instance('C01', 'pb_bss.initializer.*', 'bounded-initializers', make, call, ensures, mode='bounded', bounded_n=120, frame=False)
+
+
+_instances_before_init = instances
+
+
+def instances(tier):       # noqa: F811
+    out = _instances_before_init(tier)
+    out.append(flag_instance(2, 5))
+    out.append(flag_instance(3, 4, (2,)))
+    out.append(flag_instance(4, 5))
+    out.append(initializer_bounded_instance())
+    return out
+
+
+# ============================================================================= P4: public predict of the seven mixture models
+def predict_bounded_instance():
+    """model.predict(...) against Bayes' rule evaluated independently, class by class and frequency by frequency, with the
+    component distribution's own public log_pdf (the p_k of the property) on the caller's observation: raw for the Gaussians,
+    the direction of the frame for the spherical families.  Models are built directly from random parameters (all weight
+    layouts of the tying options), observations carry per-frame gains over 280 decades, embeddings are not unit norm."""
+    from pb_bss.distribution import cacgmm, cwmm, cbmm, gmm, vmfmm, gcacgmm, vmfcacgmm
+    from pb_bss.distribution import (complex_angular_central_gaussian as cacg_m, complex_watson as cw_m, complex_bingham as cb_m,
+                                     gaussian as g_m, von_mises_fisher as vmf_m)
+    from scipy.special import logsumexp
+
+    def make(B):
+        return {'kind': B.choose('kind', ['cacgmm', 'cwmm', 'cbmm', 'gmm', 'vmfmm', 'gcacgmm', 'vmfcacgmm', 'gcacgmm', 'vmfcacgmm']),
+                'K': B.choose('K', [1, 2, 3]), 'D': B.choose('D', [2, 3, 4]), 'wl': B.choose('wl', [0, 1, 2, 3]), 'seed': B.choose('seed', list(range(5000))),
+                'd': B.given('d', np.zeros(1))}
+
+    def unit(x):
+        return x / np.maximum(np.linalg.norm(x, axis=-1, keepdims=True), np.finfo(float).tiny)
+
+    def herm_pd(rng, shape, D):
+        A = rng.normal(size=shape + (D, D)) + 1j * rng.normal(size=shape + (D, D))
+        return A @ np.conj(np.swapaxes(A, -1, -2)) + 0.2 * np.eye(D)
+
+    def call(inp):
+        rng = np.random.RandomState(inp['seed'])
+        kind, K, D = inp['kind'], inp['K'], inp['D']
+        F, T, Ed = 2, 5, 3
+        cplx = kind not in ('gmm', 'vmfmm')
+        y = rng.normal(size=(F, T, D)) + (1j * rng.normal(size=(F, T, D)) if cplx else 0)
+        if kind != 'gmm':
+            y = y * 10.0 ** rng.uniform(-140, 140, size=(F, T, 1))          # any magnitude (1e-150..1e150): only the direction matters
+        emb = rng.normal(size=(F, T, Ed)) * rng.uniform(0.2, 3.0, size=(F, T, 1)) + rng.normal(size=Ed)
+        integration = kind in ('gcacgmm', 'vmfcacgmm')
+        # mixture weights in the layout of a tying option
+        wca = [(-1,), (-3,), (-3, -1), (-3, -2, -1)][inp['wl']] if integration else [(-1,), (-3,), (-3, -1), (-1,)][inp['wl']]
+        full = rng.dirichlet(np.ones(K) * 2, size=(F, T)).transpose(0, 2, 1)       # (F, K, T), sums to one over K
+        wshape = [F, K, T]
+        for a in wca:
+            wshape[a] = 1
+        if -2 in wca:
+            w_full = np.full((1, 1, 1) if integration else (F, K, 1), 1.0 / K)
+            w_b = np.broadcast_to(np.full((1, K, 1), 1.0 / K), (F, K, T))
+        else:
+            w_full = full[:wshape[0], :, :wshape[2]].copy()
+            w_b = np.broadcast_to(w_full, (F, K, T))
+        lam = rng.uniform(0.05, 1.0, size=(F, K, D))
+        lam /= lam.max(-1, keepdims=True)
+        V = np.linalg.eigh(herm_pd(rng, (F, K), D))[1]
+        lp = np.empty((F, K, T))
+        if kind == 'cacgmm':
+            model = cacgmm.CACGMM(weight=w_full, cacg=cacg_m.ComplexAngularCentralGaussian(covariance_eigenvectors=V, covariance_eigenvalues=lam))
+            for f in range(F):
+                for k in range(K):
+                    lp[f, k] = cacg_m.ComplexAngularCentralGaussian(covariance_eigenvectors=V[f, k], covariance_eigenvalues=lam[f, k]).log_pdf(y[f])
+            post = model.predict(y)
+        elif kind == 'cwmm':
+            mode = unit(rng.normal(size=(F, K, D)) + 1j * rng.normal(size=(F, K, D)))
+            kap = rng.uniform(0.5, 40.0, size=(F, K))
+            model = cwmm.CWMM(weight=w_full, complex_watson=cw_m.ComplexWatson(mode=mode, concentration=kap))
+            for f in range(F):
+                for k in range(K):
+                    lp[f, k] = cw_m.ComplexWatson(mode=mode[f, k], concentration=np.asarray(kap[f, k])).log_pdf(unit(y[f]))
+            post = model.predict(y)
+        elif kind == 'cbmm':
+            ev = -np.sort(rng.uniform(0.0, 8.0, size=(F, K, D)), axis=-1)[..., ::-1]
+            ev = ev - ev.max(-1, keepdims=True)
+            ev = ev - 0.3 * np.arange(D)[::-1]                      # pairwise distinct
+            ev = ev - ev.max(-1, keepdims=True)
+            model = cbmm.CBMM(weight=w_full, complex_bingham=cb_m.ComplexBingham(covariance_eigenvectors=V, covariance_eigenvalues=ev))
+            for f in range(F):
+                for k in range(K):
+                    lp[f, k] = cb_m.ComplexBingham(covariance_eigenvectors=V[f, k], covariance_eigenvalues=ev[f, k].copy()).log_pdf(unit(y[f]))
+            post = model.predict(y)
+        elif kind == 'gmm':
+            mean = rng.normal(size=(F, K, D))
+            A = rng.normal(size=(F, K, D, D))
+            cov = A @ np.swapaxes(A, -1, -2) + 0.3 * np.eye(D)
+            model = gmm.GMM(weight=w_full, gaussian=g_m.Gaussian(mean=mean, covariance=cov))
+            for f in range(F):
+                for k in range(K):
+                    lp[f, k] = g_m.Gaussian(mean=mean[f, k], covariance=cov[f, k]).log_pdf(y[f])
+            post = model.predict(y)
+        elif kind == 'vmfmm':
+            mean = unit(rng.normal(size=(F, K, D)))
+            kap = rng.uniform(0.5, 40.0, size=(F, K))
+            model = vmfmm.VMFMM(weight=w_full, vmf=vmf_m.VonMisesFisher(mean=mean, concentration=kap))
+            for f in range(F):
+                for k in range(K):
+                    lp[f, k] = vmf_m.VonMisesFisher(mean=mean[f, k], concentration=np.asarray(kap[f, k])).log_pdf(y[f])
+            post = model.predict(y)
+        else:
+            sw, pw = float(rng.uniform(0.3, 2.0)), float(rng.uniform(0.3, 2.0))
+            w_store = np.squeeze(w_full, axis=tuple(a % 3 for a in wca)) if True else w_full
+            cg = cacg_m.ComplexAngularCentralGaussian(covariance_eigenvectors=V, covariance_eigenvalues=lam)
+            lp_s = np.empty((F, K, T))
+            lp_e = np.empty((F, K, T))
+            for f in range(F):
+                for k in range(K):
+                    lp_s[f, k] = cacg_m.ComplexAngularCentralGaussian(covariance_eigenvectors=V[f, k], covariance_eigenvalues=lam[f, k]).log_pdf(y[f])
+            if kind == 'gcacgmm':
+                mean = rng.normal(size=(K, Ed))
+                var = rng.uniform(0.3, 2.0, size=(K,))
+                model = gcacgmm.GCACGMM(weight=w_store, weight_constant_axis=wca, gaussian=g_m.SphericalGaussian(mean=mean, covariance=var), cacg=cg,
+                                        spatial_weight=sw, spectral_weight=pw)
+                for f in range(F):
+                    for k in range(K):
+                        lp_e[f, k] = g_m.SphericalGaussian(mean=mean[k], covariance=np.asarray(var[k])).log_pdf(emb[f])
+            else:
+                mean = unit(rng.normal(size=(K, Ed)))
+                kap = rng.uniform(0.5, 30.0, size=(K,))
+                model = vmfcacgmm.VMFCACGMM(weight=w_store, weight_constant_axis=wca, vmf=vmf_m.VonMisesFisher(mean=mean, concentration=kap), cacg=cg,
+                                            spatial_weight=sw, spectral_weight=pw)
+                for f in range(F):
+                    for k in range(K):
+                        lp_e[f, k] = vmf_m.VonMisesFisher(mean=mean[k], concentration=np.asarray(kap[k])).log_pdf(emb[f])
+            lp = sw * lp_s + pw * lp_e
+            post = model.predict(y, emb)
+        joint = np.log(w_b) + lp
+        ref = np.exp(joint - logsumexp(joint, axis=-2, keepdims=True))
+        return {'post': np.asarray(post), 'ref': ref, 'kind': kind, 'shape': (F, K, T)}
+
+    def ensures(sp, inp, out):
+        p, ref = out['post'], out['ref']
+        yield 'documented-shape[%s]' % out['kind'], bool(p.shape == out['shape'])
+        if p.shape != out['shape']:
+            return
+        yield 'finite-in-[0,1][%s]' % out['kind'], bool(np.all(np.isfinite(p)) and np.all(p >= 0) and np.all(p <= 1 + 1e-12))
+        yield 'sums-to-one[%s]' % out['kind'], bool(np.allclose(p.sum(-2), 1.0, rtol=0, atol=1e-9))
+        yield 'bayes-rule-on-the-stored-parameters[%s]' % out['kind'], bool(np.allclose(p, ref, rtol=1e-6, atol=1e-9))
+
+    return Instance('C01', 'pb_bss.distribution.*:predict', 'bounded-public-predict-is-bayes-rule', make, call, ensures, mode='bounded', bounded_n=90,
+                    frame=False)
+
+
+_instances_before_predict = instances
+
+
+def instances(tier):       # noqa: F811
+    return _instances_before_predict(tier) + [predict_bounded_instance()]
